@@ -6,8 +6,15 @@ use crate::monitor;
 use crate::scen::{Entry, Kind};
 use std::sync::Arc;
 
+/// special files among the sources (not the destination operand, and not the ignore file, which --gitignore asks
+/// to be read: there only the hang matters)
 pub fn special_sources(scen: &Scenario) -> Vec<String> {
-    scen.tree.iter().filter(|e| matches!(e.kind, Kind::Fifo | Kind::Socket | Kind::Chr(..) | Kind::Blk(..)) && !e.path.starts_with("dst")).map(|e| e.path.clone()).collect()
+    let dest = scen.args.last().cloned().unwrap_or_default();
+    scen.tree
+        .iter()
+        .filter(|e| matches!(e.kind, Kind::Fifo | Kind::Socket | Kind::Chr(..) | Kind::Blk(..)) && !e.path.starts_with("dst") && e.path != dest && !e.path.ends_with(".gitignore"))
+        .map(|e| e.path.clone())
+        .collect()
 }
 
 pub fn judge(_w: &Worker, scen: &Scenario, ex: &Exec) -> Judgement {
@@ -79,6 +86,40 @@ pub fn own_scenarios() -> Vec<Scenario> {
     v
 }
 
+/// special files wherever an input can have them, not only among the sources: at the destination path, behind a
+/// link, under the name the ignore file has, selected by a pattern
+pub fn special_anywhere_scenarios() -> Vec<Scenario> {
+    let mut v = vec![];
+    for d in drivers() {
+        let dr = |name: &str, tree: Vec<Entry>, args: &[&str]| {
+            let mut a: Vec<&str> = vec!["--driver", d];
+            a.extend_from_slice(args);
+            Scenario::new(&format!("{}-{}", name, d), tree, &a)
+        };
+        for (kn, k) in [("fifo", Kind::Fifo), ("socket", Kind::Socket), ("chr", Kind::Chr(1, 3))] {
+            for (fl, flags) in [("plain", vec![]), ("backup", vec!["--backup", "numbered"]), ("noclobber", vec!["-n"]), ("fsync", vec!["--fsync"])] {
+                let mut a: Vec<&str> = flags.clone();
+                a.extend_from_slice(&["a", "q"]);
+                v.push(dr(&format!("file-onto-{}-{}", kn, fl), vec![Entry::file("a", "aaaa"), Entry::new("q", k.clone())], &a));
+                let mut a: Vec<&str> = flags.clone();
+                a.extend_from_slice(&["a", "lq"]);
+                v.push(dr(&format!("file-onto-link-to-{}-{}", kn, fl), vec![Entry::file("a", "aaaa"), Entry::new("q", k.clone()), Entry::link("lq", "q")], &a));
+            }
+            v.push(dr(
+                &format!("tree-onto-earlier-copy-holding-{}", kn),
+                vec![Entry::dir("src"), Entry::file("src/a", "aaaa"), Entry::file("src/b", "bbbb"), Entry::dir("src/d"), Entry::file("src/d/c", "cccc"), Entry::dir("dst"), Entry::new("dst/a", k.clone()), Entry::dir("dst/d"), Entry::new("dst/d/c", k.clone())],
+                &["-r", "-T", "-w", "2", "src", "dst"],
+            ));
+            v.push(dr(&format!("ignore-file-is-{}", kn), vec![Entry::dir("src"), Entry::new("src/.gitignore", k.clone()), Entry::file("src/a", "aaaa")], &["-r", "--gitignore", "src", "dst"]));
+            v.push(dr(&format!("link-to-{}-deref", kn), vec![Entry::new("p", k.clone()), Entry::link("lp", "p")], &["-L", "lp", "q"]));
+            v.push(dr(&format!("glob-selects-{}", kn), vec![Entry::dir("src"), Entry::new("src/p", k.clone()), Entry::file("src/a", "aaaa"), Entry::dir("dst")], &["-r", "-g", "src/*", "dst"]));
+        }
+        v.push(dr("ignore-file-is-link-to-fifo", vec![Entry::dir("src"), Entry::new("src/p", Kind::Fifo), Entry::link("src/.gitignore", "p"), Entry::file("src/a", "aaaa")], &["-r", "--gitignore", "src", "dst"]));
+        v.push(dr("ignore-file-is-dir", vec![Entry::dir("src"), Entry::dir("src/.gitignore"), Entry::file("src/a", "aaaa")], &["-r", "--gitignore", "src", "dst"]));
+    }
+    v
+}
+
 /// trees with several hundred entries: whatever buffers exist between walker and workers fill up
 pub fn pending_scenarios() -> Vec<Scenario> {
     let mut v = vec![];
@@ -140,6 +181,16 @@ pub fn run(ctx: &Ctx) -> Report {
     }
     let st = explore(&ctx.pool, jobs, j);
     rep.part("termination scenarios", st, serde_json::json!({"d": d}));
+    let d0 = if ctx.quick() { 0 } else { 1 };
+    let mut jobs = vec![];
+    for s in special_anywhere_scenarios() {
+        let s = Arc::new(s);
+        for b in base_specs() {
+            jobs.push((s.clone(), b, d0));
+        }
+    }
+    let st = explore(&ctx.pool, jobs, j);
+    rep.part("special files at the destination path, behind links, as the ignore file, selected by a pattern", st, serde_json::json!({"d": d0}));
     // more pending operations than any queue could hold while the consumers are dead or slow
     let mut jobs = vec![];
     for s in pending_scenarios() {
@@ -175,7 +226,7 @@ pub fn run(ctx: &Ctx) -> Report {
     rep.part("more pending operations than a queue holds, workers dying or failing", st, serde_json::json!({"files": 300}));
     // short counts: a retry loop must make progress
     {
-        let w = Worker::new(47, &ctx.pool.bins);
+        let w = Worker::new(147, &ctx.pool.bins);
         let mut errs = vec![];
         let mut jobs = vec![];
         for d in drivers() {
